@@ -125,6 +125,8 @@ def jobs(tier: str, seed: int) -> List[Any]:
     for pos in POSITIONS:
         for off in range(8):
             out.append(("py", pos, off))
+            out.append(("go", pos, off, False))
+            out.append(("go", pos, off, True))
             out.append(("c", pos, off, "-O0" if (off + POSITIONS.index(pos)) % 2 == 0 or tier == "quick" else "-O2"))
             if tier == "thorough":
                 out.append(("c", pos, off, "-O2"))
@@ -170,6 +172,8 @@ def run_job(job: Any, stats: Stats) -> None:
                 stats.evaluations += 2 * pts
                 stats.add_distinct(2 * nt)
                 stats.target("python", 2 * pts)
+        elif kind == "go":
+            _run_go(job, unit, cu, msgs, stats)
         else:
             opt = job[3]
             builds = [("std", False, "both", False), ("O-both", True, "both", False), ("O-both-BE", True, "both", True)]
@@ -213,6 +217,42 @@ def run_job(job: Any, stats: Stats) -> None:
     if off == 3 and pos == "array":
         stats.sample({"target": kind, "position": pos, "offset": off, "messages": ["Plain (bool, byte, uint1..64)", "Signed (int1..64)"], "vectors_per_message": len(vectors(msgs[0])), "schema_head": cu.texts["gridp.bitproto"][:700]})
     stats.extra["exhaustive"] = True
+
+
+def _run_go(job: Any, unit: Unit, cu: Any, msgs: List[Message], stats: Stats) -> None:
+    from .. import goexec
+
+    _, pos, off, optimize = job
+    tag = "go-O" if optimize else "go-std"
+    try:
+        godir = cu.render_all("go", tag=tag.replace("-", "_"), optimize=optimize)
+        gu = goexec.GoUnit(unit, godir)
+    except goexec.GoUnsupported as e:
+        stats.inconclusive_(f"{tag}: interpreter: {str(e)[:80]}")
+        return
+    except (goexec.GoCompileError, goexec.GoSyntaxError) as e:
+        raise Violation(f"{tag} grid ({pos}, offset {off}) is rejected by the Go type checker: {e}", signature="go-compile")
+    for m in msgs:
+        for v in vectors(m):
+            want = ref.encode(m, v)
+            try:
+                got = gu.encode(m, v)
+                back = gu.decode(m, want)
+            except goexec.GoUnsupported as e:
+                stats.inconclusive_(f"{tag}: interpreter: {str(e)[:80]}")
+                return
+            except goexec.GoPanic as e:
+                raise Violation(f"{tag} panics on grid ({pos}, offset {off}): {e}", {"value": v}, signature="go-panic")
+            if got != want:
+                bits = gen.bit_diff(got, want)
+                raise Violation(f"{tag} encode wrong at stream bits {bits[:8]} ({_leaf_at(m, bits[0]) if bits else None}) on grid ({pos}, offset {off})", {"value": v}, signature=f"{tag}-enc")
+            if back != v:
+                bad = [(lf.path, lf.kind, lf.bits, lf.offset % 8, ref.get_path(back, lf.path), ref.get_path(v, lf.path)) for lf in ref.leaves(m) if ref.get_path(back, lf.path) != ref.get_path(v, lf.path)][:4]
+                raise Violation(f"{tag} decode wrong on grid ({pos}, offset {off}): {bad}", {"value": v}, signature=f"{tag}-dec")
+        pts, nt = count_points(m)
+        stats.evaluations += 2 * pts
+        stats.add_distinct(2 * nt)
+        stats.target(tag, 2 * pts)
 
 
 def _leaf_at(m: Message, bit: int) -> Any:
